@@ -117,4 +117,46 @@ theorem sourceApi_cases {Loc : Type} (apiPath : SourceFilePath → String) (env 
         | none => left; simp [Outcome.accepted, hf]
         | some fp => right; simp [hf]
 
+/-! ### Candidate loop of `load_symbol_map` -/
+
+theorem candMatch_eq_some_iff {DL : Type} (id : String) (c : CandResult DL) (l : Loaded DL) :
+    candMatch id c = some l ↔ c = .ok l ∧ l.id = id := by
+  cases c with
+  | err => simp [candMatch]
+  | ok l' =>
+    unfold candMatch
+    by_cases h : l'.id = id
+    · simp only [h, BEq.rfl, if_true, Option.some.injEq, CandResult.ok.injEq]
+      constructor
+      · intro e; subst e; exact ⟨rfl, h⟩
+      · intro e; exact e.1
+    · have hb : (l'.id == id) = false := by simpa using h
+      simp only [hb, Bool.false_eq_true, if_false, CandResult.ok.injEq]
+      constructor
+      · intro e; cases e
+      · rintro ⟨e, hid⟩; subst e; exact absurd hid h
+
+/-- A candidate does not match iff it failed to load or carries another debug id. -/
+theorem candMatch_eq_none_iff {DL : Type} (id : String) (c : CandResult DL) :
+    candMatch id c = none ↔ c = .err ∨ ∃ l, c = .ok l ∧ l.id ≠ id := by
+  cases c with
+  | err => simp [candMatch]
+  | ok l' =>
+    unfold candMatch
+    by_cases h : l'.id = id
+    · simp [h]
+    · have hb : (l'.id == id) = false := by simpa using h
+      simp [hb, h]
+
+/-- `envOf` when the symbol map is found. -/
+theorem envOf_some {DL Loc : Type} (m : Manager DL Loc) (id : String) (l : Loaded DL) (o : Nat)
+    (h : loadSymbolMap m id = some l) :
+    envOf m (some id) o = ⟨l.lookup o, m.locationFor l.dfl, m.fileLen⟩ := by
+  unfold envOf; simp [h]
+
+theorem envOf_none {DL Loc : Type} (m : Manager DL Loc) (id : String) (o : Nat)
+    (h : loadSymbolMap m id = none) :
+    envOf m (some id) o = ⟨.noSymbols, fun _ => none, m.fileLen⟩ := by
+  unfold envOf; simp [h]
+
 end SourceApi
